@@ -7,6 +7,10 @@
      wr s nblk esz hex | wrz s nblk esz
      C++: xcp x y | xclr x | xapp x hex | xins x off hex | xset x hex | xsetz x n | xsets x hex | xasl x s
           xmks s y | xshf s n | xtrm s n
+          xnew x n | xiov x hex | xaiov x hex | xasp x hex | xpre x hex | xinsz x off n | xsetc x kind hex
+          xsetr x y | xsetv x kind hex | xlen x n | xscp s t | xssc s kind hex
+     struct encode_array (specification only, coq/C04/ArrayEnc.v), case = E ops...:
+          epush e hex | efin e | eprep e n | eshf e n | ecp e f | epm e hex hex
      class templates (harness/c04_tpl.cpp), case = T<family> ops...; family d u k q r p m:
           tcp x y | tcc x y | tclr x | tnew x len | tins x pos hex | tset x pos hex | trsv x len | trsz x len | tdet x
           tget x pos | toff x hex | tcmp x | tswp x p1 p2 | tunu x | mset x key val | mapp x key val
@@ -54,7 +58,50 @@ let rec parse toks = match toks with
   | "xmks" :: s :: y :: r -> OXMkSlice (ni s, ni y) :: parse r
   | "xshf" :: s :: n :: r -> OXShift (ni s, ni n) :: parse r
   | "xtrm" :: s :: n :: r -> OXTrim (ni s, ni n) :: parse r
+  (* further entry points of mpt++/array.cpp: wrappers are mapped to the operation they call *)
+  | "xnew" :: x :: n :: r ->
+    (if int_of_string n = 0 then OClone (ni x, None) else ONew (ni x, ni n, false, false)) :: parse r
+  | "xiov" :: x :: h :: r -> OXSet (ni x, bytes_of_hex h) :: parse r
+  | "xaiov" :: x :: h :: r | "xasp" :: x :: h :: r ->
+    (* the operators do not return the verdict; the harness does not apply them to no data *)
+    (if h = "-" then OXAssign (ni x, nat_of_int 99) else OXAppend (ni x, bytes_of_hex h)) :: parse r
+  | "xpre" :: x :: h :: r -> OInsert (ni x, O, bytes_of_hex h) :: parse r
+  | "xinsz" :: x :: p :: n :: r -> OInsert (ni x, ni p, zeros n) :: parse r
+  | "xsetc" :: x :: k :: h :: r ->
+    (* array::set(convertable &): vector answers -> set(len, base); text -> set(len + 1), copy, NUL;
+       no answer / empty answer -> refused (spelled as the typed set without element type, which changes nothing) *)
+    (match k with
+     | "v" | "c" -> OXSet (ni x, bytes_of_hex h)
+     | "s" -> OXSet (ni x, bytes_of_hex h @ [N0])
+     | _ -> OSet (ni x, O, false, O, [])) :: parse r
+  | "xsetr" :: x :: y :: r -> OXSetRef (ni x, ni y) :: parse r
+  | "xsetv" :: x :: k :: h :: r ->
+    let tr = match k with "V" -> 0 | "c" | "C" -> 1 | "u" | "U" -> 4 | "d" | "D" -> 8 | _ -> failwith "bad value kind" in
+    OXSetVal (ni x, nat_of_int tr, bytes_of_hex h) :: parse r
+  | "xlen" :: x :: n :: r -> OXSetLen (ni x, ni n) :: parse r
+  | "xscp" :: s :: t :: r -> OXSliceCopy (ni s, ni t) :: parse r
+  | "xssc" :: s :: k :: h :: r ->
+    (match k with
+     | "v" | "c" -> OXSliceSet (ni s, bytes_of_hex h, true)
+     | "s" -> OXSliceSet (ni s, bytes_of_hex h @ [N0], true)
+     | _ -> OXSliceSet (ni s, [], false)) :: parse r
   | t :: _ -> failwith ("bad op " ^ t)
+
+(* ---- struct encode_array: specification only *)
+let rec eparse toks = match toks with
+  | [] -> []
+  | "epush" :: e :: h :: r -> EPush (ni e, bytes_of_hex h) :: eparse r
+  | "efin" :: e :: r -> EFinish (ni e) :: eparse r
+  | "eprep" :: e :: n :: r -> EPrepare (ni e, ni n) :: eparse r
+  | "eshf" :: e :: n :: r -> EShift (ni e, ni n) :: eparse r
+  | "ecp" :: e :: f :: r -> ECopy (ni e, ni f) :: eparse r
+  | "epm" :: e :: h1 :: h2 :: r -> EPushMsg (ni e, bytes_of_hex h1, bytes_of_hex h2) :: eparse r
+  | t :: _ -> failwith ("bad encode_array op " ^ t)
+let show_enc (vs, out) =
+  (match out with EDone n -> Printf.sprintf "D:%d" (int_of_nat n) | ERefused -> "R" | EGuard -> "G") ^ "|"
+  ^ String.concat "," (List.map (fun v ->
+      Printf.sprintf "%d:%d:%s:%s" (int_of_nat v.edone) (int_of_nat v.escr) (hex_of_bytes v.ebytes)
+        (if int_of_nat v.edone + int_of_nat v.escr > List.length v.ebytes then "!" else hex_of_bytes (e_view v))) vs)
 
 (* ---- class templates: element size, unique_array, key size of the family *)
 type rdkind = RNone | RGet of tpos | ROff of n list | RUnused | RMGet of n list | RMVal of n list option
@@ -170,6 +217,10 @@ let () =
       let ss = List.map2 (fun (o, rd) (vs, out) -> show_s (vs, out) ^ (if accepted out then read_of fam o rd vs else "")) pops (srun st (abs st) ops) in
       Printf.printf "M %s %s\n" id (String.concat " " ms);
       Printf.printf "S %s %s\n" id (String.concat " " ss)
+    | id :: "E" :: eops ->
+      let toks = List.map show_enc (erun [e0; e0] (eparse eops)) in
+      Printf.printf "M %s %s\n" id (String.concat " " toks);
+      Printf.printf "S %s %s\n" id (String.concat " " toks)
     | id :: ops ->
       let st = init (nat_of_int 4) (nat_of_int 2) in
       let ops = parse ops in
